@@ -329,9 +329,9 @@ class AnnealResults(list):
         None.
 
         """
+        super().insert(index, result)
         if self.best is None or result.value < self.best.value:
             self.best = result
-        super().insert(index, result)
 
     def remove(self, result):
         """remove.
